@@ -279,7 +279,11 @@ func execC13(env *sim.Env, c C13Case) CaseResult {
 				res.Infra = fmt.Errorf("ctx %d: %v", j, r.Err)
 				return res
 			}
-			o := &c13obs{status: r.Obs.Status, out: r.OutBytes, hasOut: r.OutExists, stdout: r.Obs.Stdout, rawErr: r.Obs.Stderr}
+			// stdout is compared byte for byte, except that the absolute location of the
+			// world and the symlinked spelling of the module root are tokens (the tool
+			// prints a few messages with file positions there, e.g. for reserved notations)
+			stdoutN := []byte(strings.ReplaceAll(sim.Unsubst(string(r.Obs.Stdout), root), "{W}/modlink/", "{W}/mod/"))
+			o := &c13obs{status: r.Obs.Status, out: r.OutBytes, hasOut: r.OutExists, stdout: stdoutN, rawErr: r.Obs.Stderr}
 			o.diag = normDiag(r.Obs.Stderr, root, &x.Inv, setupAbs)
 			st.Inc("n:compared_runs")
 			for k := range x.Dims {
